@@ -307,6 +307,43 @@ def _may_move(fn, stmt, nm, ms, pure_functions):
                 hi = max(hi, pos[id(p)] + len(_dfs(p)) - 1)
             p = parents.get(id(p))
     between = order[lo + 1:hi + 1]
+    if not isinstance(value, (ast.Name, ast.Constant)):
+        # a test between the assignment and a read that looks at what the value is computed
+        # from may be the guard that makes computing it safe (`n = len(val)` hoisted above
+        # `if not isinstance(val, list): raise`): the evaluation stays where it is
+        def paths(e):
+            # maximal name.attr.attr chains of an expression
+            out, inner = set(), set()
+            for x in ast.walk(e):
+                if isinstance(x, (ast.Name, ast.Attribute)):
+                    t, parts = x, []
+                    while isinstance(t, ast.Attribute):
+                        parts.append(t.attr)
+                        t = t.value
+                        inner.add(id(t))
+                    if isinstance(t, ast.Name) and id(x) not in inner:
+                        out.add(tuple([t.id] + parts[::-1]))
+            return out
+        vpaths = {p_ for p_ in paths(value) if p_[0] != nm}
+        for x in between:
+            t = None
+            if isinstance(x, (ast.If, ast.While, ast.IfExp, ast.Assert)):
+                t = x.test
+            elif isinstance(x, ast.comprehension):
+                t = ast.Tuple(elts=list(x.ifs), ctx=ast.Load()) if x.ifs else None
+            elif isinstance(x, ast.BoolOp):
+                t = x
+            if t is not None and any(a[:len(b)] == b or b[:len(a)] == a
+                                     for a in vpaths for b in paths(t)):
+                return False
+        # ... and a read inside a try block the assignment is outside of would move the
+        # evaluation under its handlers
+        for r in reads:
+            p = parents.get(id(r))
+            while p is not None and p is not fn:
+                if isinstance(p, ast.Try) and not any(y is stmt for y in ast.walk(p)):
+                    return False
+                p = parents.get(id(p))
     calls_between = [x for x in between if isinstance(x, ast.Call) and
                      not _pure_call(x, ms)]
     stores_between = [x for x in between if isinstance(x, (ast.Attribute, ast.Subscript)) and
